@@ -721,7 +721,15 @@ fn mismatch_run(prop: &str, run: usize, seed: u64) -> Vec<J> {
                     supplied[i].def = Val::N(0);
                 }
             }
-            5 => supplied[i].name = format!("{}x", supplied[i].name),
+            5 => {
+                // a changed name; now and then the name `<bidirectional>_out` itself, so that the header's `_out` column
+                // (if it has one) is at the same time the column of this signal
+                let bidir = supplied.iter().find(|s| s.dir == Dir::Bidir).map(|s| s.name.clone());
+                supplied[i].name = match bidir {
+                    Some(b) if b != supplied[i].name && g.rng.gen_bool(0.5) => format!("{b}_out"),
+                    _ => format!("{}x", supplied[i].name),
+                };
+            }
             _ => {
                 // rename to the name of a virtual signal, or add an extra signal
                 if !plan.virtuals.is_empty() && g.rng.gen_bool(0.5) {
